@@ -93,7 +93,8 @@ klass("Kconfig", 4, "esp_kconfiglib.core", fields={
     "y": field("ref:Symbol", "imm"),
     "missing_syms": field("list", "mut"),
     "unique_defined_syms": field("list[ref:Symbol]", "imm"),
-}, props=[], methods=[])
+    "_encoding": field("str", "imm"),
+}, props=[], methods=["_contents_eq", "_write_if_changed", "_config_contents", "write_config", "_header_string"])
 
 assumption("WF:field-types",
            "declared field types of Symbol/Choice/MenuNode/Kconfig hold in every reachable tree (shape of property "
